@@ -9,6 +9,9 @@ Props/C01.lean).
     `int32`/`int64` bounds the value when the type is integer only;
   * `oneOf` = exactly one sub-schema accepts — with a `discriminator`: the object must carry the property as a
     string, which (when a mapping is given) must be a key of it, and only the mapped sub-schema is considered; `anyOf` = some; `allOf` = all; `not` = the child does not accept;
+  * `pattern` is judged by the regular-expression engine of the CALL (`env.regex`: the default Go translation, or the
+    compiler given with SetSchemaRegexCompiler); with DisablePatternValidation() the keyword is, by the option's purpose,
+    not a constraint; string length is the number of Unicode code points (draft-4: characters as defined by RFC 4627);
   * null: admitted where the schema permits null (`nullable: true` or `"null"` among the types), or —
     the library's documented reading of OpenAPI 3.0 — where the schema has compositions and these
     admit null (e.g. `anyOf: [{nullable: true, …}]`); never otherwise.
